@@ -104,7 +104,15 @@ func c17Case(k *fw.K, shape []int, lr lrSpec, src int) {
 	k.Count("update_cases", 1)
 	k.Sample()
 	var opt *optimizers.SGD
-	if p := call(func() { opt = optimizers.NewSGD(lr.conf) }); p != nil || opt == nil {
+	if p := call(func() {
+		if lr.conf == nil {
+			opt = optimizers.NewSGD(nil)
+			return
+		}
+		conf := *lr.conf
+		opt = optimizers.NewSGD(&conf)
+		conf.LearningRate = 123 // the caller's config is overwritten after construction
+	}); p != nil || opt == nil {
 		k.Failf("NewSGD(%s): panic=%v", lr.name, p)
 		return
 	}
